@@ -393,10 +393,10 @@ class SoftTTLCacheDrv(Drv):
             yield from self.c.put("k", i)
             return None
         yield from self.c.get("k")
-        yield 0.75          # now stale (soft TTL passed) -> background refresh
+        yield P(0.75)       # now stale (soft TTL passed) -> background refresh
         yield from self.c.get("k")
         yield from self.c.get("k")
-        yield 2.0           # now beyond the hard TTL -> blocking fetch
+        yield P(2.0)        # now beyond the hard TTL -> blocking fetch
         yield from self.c.get("k")
         return None
 
